@@ -103,7 +103,7 @@ def run(ctx):
     lim_field = F.field_of_type('requests_per_channel::MaxRequests', lambda t: t == 'usize')
     is_cnt = lambda x: bool(P.root(x)) and all(P.is_call(r, 'Channel::in_flight_requests') for r, _ in P.root(x))
     is_lim = lambda x: bool(P.root(x)) and all(r[0] == 'param' and P.fpath(p)[-1:] == (lim_field,) for r, p in P.root(x))
-    cmps = cmp_sites_for(F, P, [mr], is_cnt, is_lim, 'limit')
+    cmps = cmp_sites_for(F, P, reachable_local_fns(F, mr, depth=2), is_cnt, is_lim, 'limit')
     cmps = {k: v + '|limitH' + v[-1] for k, v in cmps.items()}
     R.ob('C12.guard', ('MaxRequests::poll_next', 'limit comparison'), len(cmps) == 1 and list(cmps.values())[0].split('|')[0] in ('limit+', 'limit-'),
          'the limiter compares in_flight_requests() with its limit using >= (or <)', [mr.loc(mr.d)], str(list(cmps.values())))
@@ -115,6 +115,7 @@ def run(ctx):
     jobs = []
     for ch in inner:
         jobs.append({'key': chain_name(ch), 'entry': mr.id, 'aut': ('custom', ThrottleAut), 'chain': ch, 'cmp_sites': cmps, 'kill_facts': _kill_no_registration, 'boundary': boundary})
+        jobs.append({'key': 'sink:' + chain_name(ch), 'entry': mr.id, 'aut': ('sink',), 'chain': ch})
     res = run_jobs(F, jobs)
     for ch in inner:
         r = res[chain_name(ch)]
@@ -134,6 +135,10 @@ def run(ctx):
         R.ob('C12.reply', (name, 'exactly one reply per refusal'), 'SECOND_REPLY_FOR_ONE_REFUSAL' not in v, 'a refused request receives one throttle response, not more', v.get('SECOND_REPLY_FOR_ONE_REFUSAL', []))
         R.ob('C12.reply', (name, 'no reply without a guard'), 'REPLIED_WITHOUT_GUARD' not in v, 'a throttle reply is sent only for a request read after the limit comparison said "at the limit"', v.get('REPLIED_WITHOUT_GUARD', []))
         R.ob('C12.reply', (name, 'no reply to admitted requests'), 'REPLIED_TO_A_REQUEST_BELOW_THE_LIMIT' not in v, 'a request read below the limit is never answered with a throttle error', v.get('REPLIED_TO_A_REQUEST_BELOW_THE_LIMIT', []))
+        sv = res['sink:' + chain_name(ch)]['viol']
+        nr = [k for k in sv if k[0] == 'START_SEND_WITHOUT_READY']
+        R.ob('C12.reply', (name, 'each throttle reply is written under its own readiness grant'), not nr,
+             'every throttle reply is preceded by a poll_ready that returned Ready(Ok) for it, so the reply is not lost on a full sink', sorted({s_ for k in nr for s_ in sv[k]}))
         R.ob('C12.stale', (name, 'refusal under a guard that is still valid'), 'REFUSED_UNDER_STALE_GUARD' not in v,
              'between evaluating in_flight >= limit and refusing the request read next, nothing retires a request', v.get('REFUSED_UNDER_STALE_GUARD', []),
              'the inner poll_next may retire requests (Cancel message, expiry, guard queue) before yielding the request that is then refused')
